@@ -12,7 +12,7 @@ Inductive case :=
 Definition t_default : tanswer := TFail 0 false.
 Definition s_default : sanswer := SFail 0 false.
 
-(* clause layout: agree, own_cluster, unavailable_denies, fresh_answer, cached_provenance *)
+(* clause layout: agree, own_cluster, unavailable_denies, fresh_answer, cached_provenance, same_cluster *)
 Definition eval (c : case) : list bool :=
   match c with
   | Case cfg tscr sscr tr =>
@@ -20,6 +20,6 @@ Definition eval (c : case) : list bool :=
       let sorc := script_orc s_default sscr in
       let agree := forall2b (fun (m : xop * xout) (o : xop * xout) => xout_eqb (snd m) (snd o))
                             (runx cfg torc sorc (init cfg) (map fst tr)) tr in
-      let '(own, unav, fresh, cached) := spec_ok cfg torc sorc tr in
-      [agree; own; unav; fresh; cached]
+      let '((own, unav, fresh, cached), same) := spec_ok cfg torc sorc tr in
+      [agree; own; unav; fresh; cached; same]
   end.
